@@ -1152,10 +1152,13 @@ def read_and_compare(p, name, fmt, hist, s0, v0, qs, cnt, V, divider):
     cnt["attr_comparisons"] += stats["cells"] * 7 + stats["refs"] * 4 + stats["spaces"] * 6 + 2
     cnt["item_input_comparisons"] += sum(len(v) for v in s0["item_inputs"].values())
     sigs = set()
-    for path, a, b in dict_diff(s0, s1)[:12]:
+    for i_, (path, a, b) in enumerate(dict_diff(s0, s1)):
+        # every difference is classified (a later one may be what explains a value difference below); the
+        # first twelve and every further new mechanism are reported
         sig = classify_diff(path, a, b, s0, what)
+        if i_ < 12 or sig not in sigs:
+            V("snapshot", sig, path=path, before=a, after=b, fmt=fmt, chain=hist)
         sigs.add(sig)
-        V("snapshot", sig, path=path, before=a, after=b, fmt=fmt, chain=hist)
     v1 = run_queries(r, qs, Canon(r, results=True))
     cnt["value_comparisons"] += len(v0)
     explained = sigs - VALUE_NEUTRAL       # a described difference that can change values is already reported
